@@ -105,11 +105,12 @@ type c10Snap struct {
 	Keys    map[string]string            // "bucket\x00key" -> observation
 	Lists   map[string]string            // bucket -> listing error ("" = listed fine)
 	Entries map[string]map[string]string // bucket -> key -> size:etag
+	Groups  map[string]map[string]bool   // bucket -> common prefixes of the '/'-delimited listing
 	Disk    map[string]string            // path -> size:md5 (real directories)
 }
 
 func (e *c10Env) snap() *c10Snap {
-	s := &c10Snap{Keys: map[string]string{}, Lists: map[string]string{}, Entries: map[string]map[string]string{}}
+	s := &c10Snap{Keys: map[string]string{}, Lists: map[string]string{}, Entries: map[string]map[string]string{}, Groups: map[string]map[string]bool{}}
 	r := s3x.Do(e.st.Handler, &s3x.Req{Method: "GET", Path: "/"})
 	var bd s3x.BucketsDoc
 	r.XML(&bd)
@@ -147,6 +148,14 @@ func (e *c10Env) snap() *c10Snap {
 				m[c.Key] = fmt.Sprintf("%d:%s", c.Size, c.ETag)
 			}
 			s.Entries[b] = m
+		}
+		slash := "/"
+		if dl, err := e.st.Backend.ListBucket(b, &gofakes3.Prefix{HasDelimiter: true, Delimiter: slash}, gofakes3.ListBucketPage{}); err == nil {
+			g := map[string]bool{}
+			for _, cp := range dl.CommonPrefixes {
+				g[cp.Prefix] = true
+			}
+			s.Groups[b] = g
 		}
 	}
 	if d := e.st.Dir(); d != "" && e.st.Kind.IsDir() {
@@ -230,6 +239,8 @@ func (e *c10Env) exec(op c10Op) *s3x.Resp {
 	case "api-del":
 		_, err := st.Backend.DeleteObject(op.B, op.Key)
 		return apiResp(err)
+	case "api-mkbucket":
+		return apiResp(st.Backend.CreateBucket(op.B))
 	case "api-rmbucket":
 		return apiResp(st.Backend.DeleteBucket(op.B))
 	case "api-force-rmbucket":
@@ -275,7 +286,7 @@ func (e *c10Env) step(op c10Op) (ds []disc, accepted bool) {
 		fail("panic", "%s at %s", resp.Panic, resp.PanicSite)
 	}
 	accepted = resp.Panic == "" && resp.Status >= 200 && resp.Status < 300
-	mutating := map[string]bool{"put": true, "del": true, "mdel": true, "copy-to": true, "copy-from": true, "complete": true, "post": true, "api-put": true, "api-del": true, "mkbucket": true, "rmbucket": true, "api-rmbucket": true, "api-force-rmbucket": true}[op.K]
+	mutating := map[string]bool{"put": true, "del": true, "mdel": true, "copy-to": true, "copy-from": true, "complete": true, "post": true, "api-put": true, "api-del": true, "mkbucket": true, "rmbucket": true, "api-mkbucket": true, "api-rmbucket": true, "api-force-rmbucket": true}[op.K]
 	after := e.snap()
 	if e.st.GuardTripped() {
 		fail("runaway-recursion", "after the operation, listing the store recursed without bound (a fatal stack overflow in production)")
@@ -300,7 +311,7 @@ func (e *c10Env) step(op c10Op) (ds []disc, accepted bool) {
 		}
 		return isFs && c10Alias(k, addrKey)
 	}
-	if before.Buckets != after.Buckets && op.K != "mkbucket" && op.K != "rmbucket" && op.K != "api-rmbucket" && op.K != "api-force-rmbucket" {
+	if before.Buckets != after.Buckets && op.K != "mkbucket" && op.K != "rmbucket" && op.K != "api-mkbucket" && op.K != "api-rmbucket" && op.K != "api-force-rmbucket" {
 		fail("bucket-set-changed", "ListBuckets before %s after %s", before.Buckets, after.Buckets)
 	}
 	for id, obs := range before.Keys {
@@ -332,6 +343,22 @@ func (e *c10Env) step(op c10Op) (ds []disc, accepted bool) {
 			}
 		}
 	}
+	for _, b := range e.buckets {
+		gb, ga := before.Groups[b], after.Groups[b]
+		if gb == nil || ga == nil {
+			continue
+		}
+		for g := range ga {
+			if !gb[g] && !(b == op.B && mutating && strings.HasPrefix(addrKey+"/", g)) {
+				fail("unaddressed-prefix-appeared", "the '/'-delimited listing of %s gained the common prefix %q although %s/%q was addressed", b, g, op.B, addrKey)
+			}
+		}
+		for g := range gb {
+			if !ga[g] && !(b == op.B && mutating && strings.HasPrefix(addrKey+"/", g)) && !(b == op.B && (op.K == "rmbucket" || op.K == "api-rmbucket" || op.K == "api-force-rmbucket")) {
+				fail("unaddressed-prefix-vanished", "the '/'-delimited listing of %s lost the common prefix %q although %s/%q was addressed", b, g, op.B, addrKey)
+			}
+		}
+	}
 	if before.Disk != nil {
 		ok := func(rel string) bool {
 			if !mutating {
@@ -343,7 +370,7 @@ func (e *c10Env) step(op c10Op) (ds []disc, accepted bool) {
 			} else {
 				roots = []string{"root/buckets/" + op.B + "/", "root/metadata/" + op.B + "/", "root/metadata/"}
 			}
-			if op.K == "mkbucket" || op.K == "rmbucket" {
+			if op.K == "mkbucket" || op.K == "rmbucket" || op.K == "api-mkbucket" {
 				roots = append(roots, "root/buckets/")
 			}
 			for _, r := range roots {
@@ -648,6 +675,21 @@ func c10Run(t *testing.T, c *evid.Collector) {
 					ds, acc := c10Exec(cs)
 					record("framing", cs, ds, acc, "hostile-buckets")
 				}
+			}
+		}
+	}
+	// ---- bucket names only the Go Backend API can carry (a slash, a climbing path): creating or
+	// deleting them must not reach into bk0 / bk1 or beside the storage root
+	for _, k := range kinds {
+		for _, b := range []string{"bk0/sub", "bk0/d", "bk0/d/x", "../buckets2", "../buckets3", "../buckets2x/inner", "../../root2", "bk0/../bk1", "./bk0", "bk0/", "/bk0", "../metadata/bk0", "a/b/c"} {
+			for _, opk := range []string{"api-mkbucket", "api-rmbucket", "api-force-rmbucket", "api-put", "api-del"} {
+				n++
+				if n%evid.Shards() != evid.Shard() {
+					continue
+				}
+				cs := c10Case{Backend: k, Ops: []c10Op{{K: opk, B: b, Key: "a", Body: "bucket name only the API can carry"}}}
+				ds, acc := c10Exec(cs)
+				record("framing", cs, ds, acc, "api-bucket-names")
 			}
 		}
 	}
